@@ -280,14 +280,50 @@ def check_negation_and_values(chk, ix):
     else:
         _fail(chk, "A7", prop, "reads %r, %r; _value now %r" % (v1, v2, still),
               "a lazy (callable) current value is evaluated once and frozen (reads: %r then %r): later changes of the value are not seen" % (v1, v2))
-    ap = ix.cls("behave.tag_matcher:ActiveTagValueProvider")
-    uv = ap.lookup("use_value")
-    chk.instance("A7")
-    src = unparse(uv.node)
-    if "callable(value)" in src and "value_func()" in src:
-        chk.ok("A7", {"provider.use_value": "calls a callable value on every read"}, nontrivial_key="use_value")
-    else:
-        _fail(chk, "A7", uv, "use_value", "ActiveTagValueProvider.use_value does not evaluate callable values on every read")
+    # provider level: every lookup of a known category evaluates the lazy value again, through every provider shape
+    pc = ix.cls("behave.tag_matcher:ActiveTagValueProvider")
+    cc = ix.cls("behave.tag_matcher:CompositeActiveTagValueProvider")
+    for pname in ("ActiveTagValueProvider", "CompositeActiveTagValueProvider(dict)", "CompositeActiveTagValueProvider(provider)",
+                  "CompositeActiveTagValueProvider(provider, second position)"):
+        for via in ("get", "[]"):
+            if via == "[]" and pname != "ActiveTagValueProvider":
+                continue
+            calls = []
+
+            def lazy2(i, s, a, k, n, _c=calls):
+                _c.append(1)
+                return [(s, "val", "value#%d" % len(_c))]
+            st = State()
+            st.frames = []
+            it4 = Interp(ix, name="lazy provider value")
+            data = st.alloc(HObj("dict", kind="dict", items=[("os", lazy2), ("plain", "x")], label="provider data"))
+            if pname == "ActiveTagValueProvider":
+                prov = st.alloc(HObj(pc, {"data": data}, label=pname))
+            else:
+                inner = data if pname.endswith("(dict)") else st.alloc(HObj(pc, {"data": data}, label="inner provider"))
+                members = [inner]
+                if "second" in pname:
+                    members = [st.alloc(HObj("dict", kind="dict", items=[("other", 1)], label="first provider")), inner]
+                prov = st.alloc(HObj(cc, {"data": st.alloc(HObj("dict", kind="dict", items=[])),
+                                          "value_providers": st.alloc(HObj("list", kind="list", items=members))}, label=pname))
+            meth = st.obj(prov).cls.lookup("get" if via == "get" else "__getitem__")
+            reads = []
+            cur = st
+            ok = True
+            for _ in range(3):
+                outs = it4.call_function(cur, meth, ["os"], {}, None, self_val=prov)
+                if len(outs) != 1 or outs[0][1] != "val":
+                    raise AnalysisError("provider %s.%s not evaluable: %r" % (pname, via, [(k, v) for _, k, v in outs][:3]))
+                cur = outs[0][0]
+                reads.append(outs[0][2])
+            chk.absorb(it4)
+            chk.instance("A7")
+            if reads == ["value#1", "value#2", "value#3"]:
+                chk.ok("A7", {"provider": pname, "via": via, "reads": reads}, nontrivial_key=(pname, via))
+            else:
+                _fail(chk, "A7", meth, "%s via %s: reads %r" % (pname, via, reads),
+                      "three successive lookups of a category with a lazy (callable) value through %s give %r instead of three fresh "
+                      "evaluations: the decision is taken against a stale value" % (pname, reads), cur.path)
 
 
 def check_grouping(chk, ix):
